@@ -36,14 +36,29 @@ GOENV = dict(os.environ, GOFLAGS="-mod=mod", GOPROXY="off", GOSUMDB="off", GOTOO
 
 
 def sh(cmd, cwd=None, env=None, timeout=None, inp=None):
-    """run, return (rc, combined output)"""
+    """run, return (rc, combined output). The command gets a process group of its own, and whatever is left
+    of that group when the command has ended (or has been killed at the timeout) is killed as well: a model
+    driver orphaned by a harness that crashed or hung must not survive into the next run."""
+    import signal
+    p = subprocess.Popen(cmd, cwd=cwd, env=env, stdin=subprocess.PIPE if inp is not None else subprocess.DEVNULL,
+                         stdout=subprocess.PIPE, stderr=subprocess.STDOUT, text=True, errors="replace",
+                         start_new_session=True)
     try:
-        p = subprocess.run(cmd, cwd=cwd, env=env, timeout=timeout, input=inp,
-                           stdout=subprocess.PIPE, stderr=subprocess.STDOUT, text=True, errors="replace")
-        return p.returncode, p.stdout
-    except subprocess.TimeoutExpired as e:
-        out = e.stdout if isinstance(e.stdout, str) else (e.stdout or b"").decode("utf8", "replace")
-        return 124, (out or "") + "\n[timeout after %ss]" % timeout
+        try:
+            out, _ = p.communicate(inp, timeout=timeout)
+            return p.returncode, out
+        except subprocess.TimeoutExpired:
+            try:
+                os.killpg(p.pid, signal.SIGKILL)
+            except OSError:
+                pass
+            out, _ = p.communicate()
+            return 124, (out or "") + "\n[timeout after %ss]" % timeout
+    finally:
+        try:
+            os.killpg(p.pid, signal.SIGKILL)
+        except OSError:
+            pass
 
 
 def strip_comments(src):
@@ -303,7 +318,10 @@ class Run:
                         ok_all = False
                         self.ties.append({"tie": "model", "what": "the executable model %s does not build against the regenerated facts: %s" % (mname, out[-400:])})
                     else:
-                        shutil.copy2(exe, os.path.join(self.rundir, "driver_" + mname))
+                        dst = os.path.join(self.rundir, "driver_" + mname)
+                        if os.path.exists(dst):
+                            os.unlink(dst)   # a driver left running by an earlier run keeps its old file; no "text file busy"
+                        shutil.copy2(exe, dst)
                 if ok_all:
                     # dispatcher so that both `driver <model>` and `driver_<model>` work
                     self.driver = os.path.join(self.rundir, "driver")
@@ -318,6 +336,8 @@ class Run:
                     self.ties.append({"tie": "model", "what": "the executable model does not build against the regenerated facts: " + out[-400:]})
                 else:
                     self.driver = os.path.join(self.rundir, "driver")
+                    if os.path.exists(self.driver):
+                        os.unlink(self.driver)
                     shutil.copy2(exe, self.driver)
         finally:
             fcntl.flock(lock, fcntl.LOCK_UN)
